@@ -14,6 +14,14 @@ PROPS = {
         trusted_base=["DFKconvert is exercised but not modelled here (C06)", "non-HDF netCDF/CDF paths of the same functions are out of scope"],
         assumptions=["fixed-size variables in the placement tie (record variables are covered by the implementation oracle only)"],
     ),
+    "C06": dict(
+        lean_props=["H4.Props.C06"],
+        engines=[
+            E("conv", "e_conv.c", model="conv", quick=dict(cases=3000), thorough=dict(cases=40000, seeds=4, chunk=2500, args=[1], timeout=3000)),
+        ],
+        trusted_base=["the type -> (size, swap) table is obtained by calling DFKNTsize/DFKconvert of the library under test (gen/gen.py gen_conv)"],
+        assumptions=["little-endian host (the generated table records which routines swap on THIS host)"],
+    ),
     "C05": dict(
         lean_props=["H4.Props.C05"],
         engines=[
